@@ -18,7 +18,11 @@ import (
 
 func textBlob(s string) Blob { return Blob{N: len(s), Pat: []byte(s)} }
 
-func genCfgCols(t *rapid.T) []MyCfgCol {
+// genCfgCols draws the roles of the columns c0.. of the configured table. policies: typed roles also draw their
+// response_on_fail policy (MySQL layer; the PostgreSQL layer keeps default_value: a PostgreSQL RowDescription leaves
+// the proxy before any row is read, a value kept as ciphertext in a column described with the declared type is the
+// documented behaviour there and no matter of message well-formedness - values carry their own length).
+func genCfgCols(t *rapid.T, policies bool) []MyCfgCol {
 	n := rapid.IntRange(2, 5).Draw(t, "ncfg")
 	var out []MyCfgCol
 	havePlain, haveCfg := false, false
@@ -51,6 +55,14 @@ func genCfgCols(t *rapid.T) []MyCfgCol {
 		if role != "plain" {
 			haveCfg = true
 		}
+		if _, typed := roleType(role); typed && policies {
+			// what the reader gets for a value that cannot be revealed: the configured default value, or the stored value
+			// as it is (policy written out, or left to the loader's default)
+			c.OnFail = rapid.SampledFrom([]string{"", "", "ciphertext", "unset"}).Draw(t, l+".onfail")
+			if c.keepsCiphertext() {
+				c.Default = ""
+			}
+		}
 		out = append(out, c)
 	}
 	return out
@@ -71,7 +83,20 @@ func tableCols(schema []MyCfgCol) []MyCol {
 	return cols
 }
 
+// fates of the values of one column within one result set
+const (
+	fateFree       = ""
+	fateReadable   = "readable"
+	fateUnreadable = "unreadable"
+)
+
 func genRewriteCell(t *rapid.T, label string, cfg MyCfgCol) MyCell {
+	return genRewriteCellFate(t, label, cfg, fateFree)
+}
+
+// genRewriteCellFate draws a cell; fate fixes whether a value of a configured column is a really protected one
+// (readable) or stored bytes that cannot be revealed (unreadable).
+func genRewriteCellFate(t *rapid.T, label string, cfg MyCfgCol, fate string) MyCell {
 	switch rapid.SampledFrom([]string{"null", "empty", "val", "val", "val", "val"}).Draw(t, label+".kind") {
 	case "null":
 		return MyCell{Null: true}
@@ -82,6 +107,12 @@ func genRewriteCell(t *rapid.T, label string, cfg MyCfgCol) MyCell {
 		return MyCell{B: genBlob(t, label, false)}
 	}
 	protected := rapid.IntRange(0, 3).Draw(t, label+".prot") > 0
+	switch fate {
+	case fateReadable:
+		protected = true
+	case fateUnreadable:
+		protected = false
+	}
 	envelope := rapid.SampledFrom([]string{"acrastruct", "acrablock"}).Draw(t, label+".env")
 	switch cfg.Role {
 	case "int32", "int64":
@@ -112,7 +143,7 @@ func genRewriteCell(t *rapid.T, label string, cfg MyCfgCol) MyCell {
 }
 
 func genMyRewriteCase(t *rapid.T) MyCase {
-	c := MyCase{Auth: MyAuth{Kind: "ok", User: "app", DB: "db1"}, Schema: genCfgCols(t)}
+	c := MyCase{Auth: MyAuth{Kind: "ok", User: "app", DB: "db1"}, Schema: genCfgCols(t, true)}
 	for {
 		c.ServerCaps, c.ClientCaps = genCaps(t)
 		if c.ClientCaps&mysess.CapProtocol41 != 0 {
@@ -135,6 +166,16 @@ func genMyRewriteCase(t *rapid.T) MyCase {
 	}
 	genSet := func(l string, cols []MyCol, binary bool) MySet {
 		s := MySet{Cols: cols, End: MyOK{Status: mysess.StatusAutocommit}}
+		// An integer column under the ciphertext policy in a binary result set: the values of one result set are either all
+		// revealed or all unrevealable (with NULLs and empty values among them). One column definition cannot describe a
+		// mix of 4/8-byte integers and length-encoded stored values - that shape is the open finding of C19
+		// (malformed-row:binary:integer-column-with-revealed-and-ciphertext-rows) and is not built here.
+		fates := make([]string, len(cols))
+		for i, col := range cols {
+			if col.Cfg >= 0 && binary && c.Schema[col.Cfg].intRole() && c.Schema[col.Cfg].keepsCiphertext() {
+				fates[i] = rapid.SampledFrom([]string{fateReadable, fateUnreadable, fateUnreadable}).Draw(t, fmt.Sprintf("%s.c%d.fate", l, i))
+			}
+		}
 		nrows := rapid.IntRange(1, 4).Draw(t, l+".nrows")
 		for r := 0; r < nrows; r++ {
 			var row []MyCell
@@ -148,7 +189,7 @@ func genMyRewriteCase(t *rapid.T) MyCase {
 					}
 					continue
 				}
-				row = append(row, genRewriteCell(t, cl, c.Schema[col.Cfg]))
+				row = append(row, genRewriteCellFate(t, cl, c.Schema[col.Cfg], fates[i]))
 			}
 			s.Rows = append(s.Rows, row)
 		}
@@ -385,6 +426,9 @@ func (c MyCase) compareRewrite(vs *hx.Vs, cl classSet, r *myRun, toDB, toClient 
 				if p.expCol != nil {
 					// relayed as the database described it (the property does not demand the re-typing; C19 does)
 					cl.add("column-def:configured-but-relayed:%s", p.colRole)
+					if p.mayKeepType {
+						cl.add("column-def:database-type-kept-for-unrevealable-value:%s", p.colRole)
+					}
 				}
 				break
 			}
@@ -401,7 +445,11 @@ func (c MyCase) compareRewrite(vs *hx.Vs, cl classSet, r *myRun, toDB, toClient 
 			}
 			if p.expCol != nil {
 				cl.add("column-def:retyped:%s", p.colRole)
-				if want, _ := roleType(p.colRole); cd.Type != want {
+				if p.mayKeepType && cd.Type == e.Type {
+					// rolled back to the database's type (the other fixed fields may keep what the re-typing made of them)
+					cl.add("column-def:database-type-kept-for-unrevealable-value:%s", p.colRole)
+				}
+				if want, _ := roleType(p.colRole); cd.Type != want && !(p.mayKeepType && cd.Type == e.Type) {
 					vs.Add("column-def-type:"+p.colRole, "column configured as %s is described with type 0x%02x, want 0x%02x", p.colRole, cd.Type, want)
 					return
 				}
@@ -424,8 +472,11 @@ func (c MyCase) compareRewrite(vs *hx.Vs, cl classSet, r *myRun, toDB, toClient 
 				row, err = mysess.DecodeTextRow(g.Payload, len(p.expRow))
 			}
 			kinds := rowKinds(p.expRow)
+			if p.rowBin && p.rowSet.mixedInt {
+				kinds = "integer-column-with-revealed-and-ciphertext-rows"
+			}
 			if err != nil {
-				vs.Add("malformed-row:"+proto+":"+kinds, "%s row (%s) does not re-parse as %d columns: %v; received %d bytes % x, database sent %d bytes", proto, kinds, len(p.expRow), err, len(g.Payload), trunc(g.Payload), len(p.payload))
+				vs.Add("malformed-row:"+proto+":"+kinds, "%s row (%s) does not re-parse as %d columns against the column definitions the client received (types % x; the database's % x): %v; received %d bytes % x, database sent %d bytes", proto, kinds, len(p.expRow), clTypes, p.rowSet.dbTypes, err, len(g.Payload), trunc(g.Payload), len(p.payload))
 				return
 			}
 			changed, unchanged := 0, 0
@@ -554,7 +605,7 @@ func rowKinds(exp []expCell) string {
 	}
 	var out []string
 	// the signature names the most specific class present in the row
-	for _, k := range []string{"empty-in-integer-column", "grow", "same-length", "shrink", "empty", "null", "unchanged"} {
+	for _, k := range []string{"empty-in-integer-column", clsKeptInt, "ciphertext-kept", "grow", "same-length", "shrink", "empty", "null", "unchanged"} {
 		if set[k] {
 			return k
 		}
@@ -706,7 +757,7 @@ func execKinds(in *insertInfo, e mysess.Execute) string {
 }
 
 func TestMySQLRewrite(t *testing.T) {
-	R.Rule("TestMySQLRewrite", "a MySQL session as in TestMySQLRelay with an encryptor configuration for table t: columns c0..c4 with generated roles (not configured / encrypted with acrastruct or acrablock / data_type str, bytes, int32, int64 with response_on_fail default_value and defaults of lengths 0, 3, 12, 250, 251, 300); commands: SELECT (text rows) and prepared SELECT (binary rows, executed once or twice, types re-sent or not) answered by the scripted server with rows whose configured columns hold NULL / empty / really protected values made with fix.Protect (plaintext lengths 1..65536, so decryption shrinks them, also across the 251 and 65536 boundaries) / stored bytes that do not decrypt (replaced by the default: grows, shrinks or keeps the length); INSERT as text and as prepared statement with values for configured columns. Oracle: every packet keeps its sequence id; untouched packets byte-identical; a rewritten row re-parses strictly with the reference codec against the column definitions the client received (no trailing bytes, canonical length prefixes), NULL markers preserved, unconfigured and unchanged fields byte-identical, changed fields equal the expected plaintext / default; re-typed column definitions re-parse with all names preserved; a rewritten COM_QUERY parses with an independent parser to the same statement with unconfigured values unchanged and configured values not in clear; a rewritten COM_STMT_EXECUTE re-parses with the same NULL bitmap and untouched parameters. Non-trivial: a row with >= 1 changed and >= 1 unchanged non-NULL column")
+	R.Rule("TestMySQLRewrite", "a MySQL session as in TestMySQLRelay with an encryptor configuration for table t: columns c0..c4 with generated roles (not configured / encrypted with acrastruct or acrablock / data_type str, bytes, int32, int64 with response_on_fail default_value and defaults of lengths 0, 3, 12, 250, 251, 300, or with response_on_fail ciphertext - written out or left to the loader's default); commands: SELECT (text rows) and prepared SELECT (binary rows, executed once or twice, types re-sent or not) answered by the scripted server with rows whose configured columns hold NULL / empty / really protected values made with fix.Protect (plaintext lengths 1..65536, so decryption shrinks them, also across the 251 and 65536 boundaries) / stored bytes that do not decrypt (replaced by the default: grows, shrinks or keeps the length; under the ciphertext policy handed over as stored, where the proxy has to leave the column definition at the database's type; in a binary result set the values of one int32/int64 column under that policy are all revealable or all unrevealable - the mix is the open finding C19 malformed-row:binary:integer-column-with-revealed-and-ciphertext-rows and is not generated); INSERT as text and as prepared statement with values for configured columns. Oracle: every packet keeps its sequence id; untouched packets byte-identical; a rewritten row re-parses strictly with the reference codec against the column definitions the client received in front of it (binary rows are taken apart by the announced types: a column announced as LONG / LONGLONG must hold 4 / 8 bytes, one announced with the database's type a length-encoded value; no trailing bytes, canonical length prefixes), NULL markers preserved, unconfigured and unchanged fields byte-identical (a value kept under the ciphertext policy is such a field), changed fields equal the expected plaintext / default; re-typed column definitions re-parse with all names preserved and announce the configured type, or the database's type when the result set holds a value that is kept as stored; a rewritten COM_QUERY parses with an independent parser to the same statement with unconfigured values unchanged and configured values not in clear; a rewritten COM_STMT_EXECUTE re-parses with the same NULL bitmap and untouched parameters. Non-trivial: a row with >= 1 changed and >= 1 unchanged non-NULL column")
 	hx.Checks(400, 1500)
 	rapid.Check(t, func(rt *rapid.T) {
 		c := genMyRewriteCase(rt)
